@@ -97,7 +97,8 @@ def gen_ty(rng, env, depth, hashable=False, allow_union=True, classes=None, wrap
         return ("tuple", rng.choice(["tuple[{}]", "typing.Tuple[{}]"]), [sub() for _ in range(rng.randint(1, 4))])
     if r < 0.9 and allow_union:
         if rng.random() < 0.5:
-            return ("union", rng.choice(["Optional", "|", "Union"]), [sub(), ("none",)])
+            m = gen_ty(rng, env, depth - 1, False, False, classes, 0, wid, True)   # typing flattens nested unions
+            return ("union", rng.choice(["Optional", "|", "Union"]), [m, ("none",)])
         n = rng.randint(2, 3)
         ms = []
         for _ in range(n):
